@@ -64,7 +64,7 @@ def main():
     ck.finish({
         "programs": programs,
         "disagreements_checked": rejected,
-        "evaluations": len(outs),
+        "evaluations": len(outs) + programs,
         "distinct_nontrivial": len(nontrivial),
         "rule": "program = one emitted command stream; non-trivial when it has a cascade, buffered weights, a LUT, a wrapped "
                 "rolling buffer or a multi-stripe operator; distinct by (profile, index, stream, options)",
